@@ -37,7 +37,7 @@ Print Assumptions edns_version_roundtrip.
 
 (* ------------------------------------------------------------------------------------------ *)
 From DV Require Import Proofs.NameOrder Proofs.NameValid Proofs.NameCompress.
-From DV Require Import Proofs.MessageName Proofs.MessageRender Proofs.MessageRead Proofs.MessageRoundtrip Proofs.MessageRoundtrip2 Proofs.MessageRoundtrip3.
+From DV Require Import Proofs.MessageName Proofs.MessageRender Proofs.MessageRead Proofs.MessageRoundtrip Proofs.MessageRoundtrip2 Proofs.MessageRoundtrip3 Proofs.MessageUpdate Proofs.MessageRerender.
 
 (* Rendering a well-formed ordinary message (any opcode but UPDATE; any id and flags; EDNS with any
    flags, extended rcode, version, payload and generic options; a TSIG record; with or without an
@@ -46,14 +46,40 @@ From DV Require Import Proofs.MessageName Proofs.MessageRender Proofs.MessageRea
    EDNS state, the same TSIG record, and in every section the same record sets in the same order with
    the same TTLs and RDATA, names equal up to ASCII case (the library's name equality; compression is
    case-insensitive).
-   _partial: the dynamic-update forms (empty class-ANY/NONE records, one record per set) are in the
-   model and covered by the correspondence and the oracle, not by this theorem. *)
-Theorem render_parse_partial : forall o m max_size request_payload w,
+   (dynamic updates: update_forms_roundtrip below; the two theorems together are the first clause of
+   the property for rendering without overflow and without padding) *)
+Theorem render_parse : forall o m max_size request_payload w,
   org_ok o -> WfMsg o m -> wf_tsig m ->
   to_wire m o max_size request_payload false 0 = Ok w ->
   exists m', from_wire w o po0 = Ok m' /\ msg_equiv_t m' m.
 Proof. intros o m ms rp w OO. exact (render_parse_full_lemma o OO m ms rp w). Qed.
-Print Assumptions render_parse_partial.
+Print Assumptions render_parse.
+
+(* ... and rendering the parsed message again (same limit, no shuffling) reproduces the octets exactly:
+   the parsed names differ from the originals at most in the case of labels that the renderer wrote as
+   a compression pointer (and, below an origin, in the origin labels, which are written from the origin) *)
+Theorem rerender_identical : forall o m max_size request_payload w m',
+  org_ok o -> WfMsg o m -> wf_tsig m ->
+  to_wire m o max_size request_payload false 0 = Ok w -> from_wire w o po0 = Ok m' ->
+  to_wire m' o max_size request_payload false 0 = Ok w.
+Proof. exact rerender_identical_lemma. Qed.
+Print Assumptions rerender_identical.
+
+(* Dynamic updates (opcode UPDATE; the reader builds an UpdateMessage, one record per record set):
+   a zone section with one SOA-typed entry of a non-meta class, and in the prerequisite, update and
+   additional sections record sets in the normal form the reader produces - the empty forms
+   "name is in use" / "RRset exists (value independent)" / "delete an RRset" / "delete all RRsets"
+   (class ANY on the wire, deleting = ANY) and "name is not in use" / "RRset does not exist" (class
+   NONE in the prerequisite section), the one-record forms "RRset exists (value dependent)" / "add to
+   an RRset" (the record's own class) and "delete an RR from an RRset" (class NONE on the wire,
+   deleting = NONE, RDATA in the zone class) - with EDNS, TSIG, with or without origin: rendering and
+   parsing gives back the same id, flags, EDNS state, TSIG and the same record sets in every section *)
+Theorem update_forms_roundtrip : forall o m z max_size request_payload w,
+  org_ok o -> WfUpd o m z -> wf_tsig m ->
+  to_wire m o max_size request_payload false 0 = Ok w ->
+  exists m', from_wire w o po0 = Ok m' /\ msg_equiv_t m' m.
+Proof. intros o m z ms rp w OO. exact (update_roundtrip_lemma o OO m z ms rp w). Qed.
+Print Assumptions update_forms_roundtrip.
 
 (* the header counts equal the records present (record sets count one per record, an empty set one;
    OPT and TSIG count in the additional section), and the reader, which reads exactly that many
@@ -156,8 +182,79 @@ Example render_parse_nonvacuous :
                map rname (man m') = [n_www; n_www].
 Proof.
   destruct (to_wire ex_m None 0 0 false 0) as [w| |] eqn:E; try (vm_compute in E; discriminate).
-  destruct (render_parse_partial None ex_m 0 0 w Logic.I ex_m_wf Logic.I E) as (m' & F & (EQ & _)).
+  destruct (render_parse None ex_m 0 0 w Logic.I ex_m_wf Logic.I E) as (m' & F & (EQ & _)).
   exists w, m'. split; [reflexivity|]. vm_compute in E. injection E as <-.
   split; [reflexivity|]. split; [exact F|]. split; [exact EQ|].
   vm_compute in F. injection F as <-. reflexivity.
+Qed.
+
+(* the parsed message differs from ex_m (the case variant) and still renders to the same octets *)
+Example rerender_nonvacuous :
+  exists w m', to_wire ex_m None 0 0 false 0 = Ok w /\ from_wire w None po0 = Ok m' /\
+               man m' <> man ex_m /\ to_wire m' None 0 0 false 0 = Ok w.
+Proof.
+  destruct (to_wire ex_m None 0 0 false 0) as [w| |] eqn:E; try (vm_compute in E; discriminate).
+  destruct (from_wire w None po0) as [m'| |] eqn:F;
+    try (vm_compute in E; injection E as <-; vm_compute in F; discriminate).
+  exists w, m'. split; [reflexivity|]. split; [exact F|]. split.
+  - vm_compute in E. injection E as <-. vm_compute in F. injection F as <-. vm_compute. discriminate.
+  - exact (rerender_identical None ex_m 0 0 w m' Logic.I ex_m_wf Logic.I E F).
+Qed.
+
+(* ---- non-vacuity for updates: zone ex.com/IN, prerequisites "name in use", "RRset does not exist",
+   update "delete an RRset", "delete an RR", "add", relative names under the origin com. ---- *)
+Definition o_com : option name := Some [[99; 111; 109]; []].
+Definition r_ex : name := [[101; 120]].                 (* ex   (relative to com.) *)
+Definition r_www : name := [[119; 119; 119]; [101; 120]].  (* www.ex *)
+Definition ex_u : msg :=
+  mkMsg 77 10240
+        [mkRR r_ex 1 6 0 None 0 []]
+        [mkRR r_www 1 255 0 (Some 255) 0 []; mkRR r_www 1 15 0 (Some 254) 0 []]
+        [mkRR r_www 1 1 0 (Some 255) 0 [];
+         mkRR r_www 1 1 0 (Some 254) 0 [[PB [1; 2; 3; 4]]];
+         mkRR r_www 1 15 0 None 300 [[PB [0; 10]; PN [[109]; [101; 120]]]]]
+        [] None None.
+
+Lemma ex_u_wf : WfUpd o_com ex_u (mkRR r_ex 1 6 0 None 0 []).
+Proof.
+  assert (OC : name_ok [[99; 111; 109]; []]) by solve_name_ok.
+  assert (W1 : name_wf o_com r_ex).
+  { right. exists [[99; 111; 109]; []]. split; [reflexivity|]. split; [reflexivity|].
+    repeat split; [repeat constructor; vm_compute; discriminate | vm_compute; discriminate | repeat constructor; discriminate]. }
+  assert (W2 : name_wf o_com r_www).
+  { right. exists [[99; 111; 109]; []]. split; [reflexivity|]. split; [reflexivity|].
+    repeat split; [repeat constructor; vm_compute; discriminate | vm_compute; discriminate | repeat constructor; discriminate]. }
+  assert (W3 : name_wf o_com [[109]; [101; 120]]).
+  { right. exists [[99; 111; 109]; []]. split; [reflexivity|]. split; [reflexivity|].
+    repeat split; [repeat constructor; vm_compute; discriminate | vm_compute; discriminate | repeat constructor; discriminate]. }
+  constructor; cbn [ex_u mflags mq man mau mad mopt rname rtype rclass].
+  - reflexivity.
+  - reflexivity.
+  - exact W1.
+  - reflexivity.
+  - reflexivity.
+  - constructor; [|constructor; [|constructor]].
+    + split; [exact W2|]. split; [discriminate|]. split; [discriminate|]. left. cbn. auto 10.
+    + split; [exact W2|]. split; [discriminate|]. split; [discriminate|]. left. cbn. auto 10.
+  - constructor; [|constructor; [|constructor; [|constructor]]].
+    + split; [exact W2|]. split; [discriminate|]. split; [discriminate|]. left. cbn. auto 10.
+    + split; [exact W2|]. split; [discriminate|]. split; [discriminate|]. right.
+      exists [PB [1; 2; 3; 4]], [FFix 4]. cbn [rrds rclass rtype rttl rcovers rdeleting].
+      split; [reflexivity|]. split; [reflexivity|]. split; [pieces|]. split; [pieces|]. split; [lia|].
+      split; [reflexivity|]. right. split; [reflexivity|]. split; [reflexivity|discriminate].
+    + split; [exact W2|]. split; [discriminate|]. split; [discriminate|]. right.
+      exists [PB [0; 10]; PN [[109]; [101; 120]]], [FFix 2; FNameC]. cbn [rrds rclass rtype rttl rcovers rdeleting].
+      split; [reflexivity|]. split; [reflexivity|]. split; [pieces|]. split; [pieces|]. split; [lia|].
+      split; [reflexivity|]. left. split; reflexivity.
+  - constructor.
+  - exact Logic.I.
+Qed.
+
+Example update_roundtrip_nonvacuous :
+  exists w m', to_wire ex_u o_com 0 0 false 0 = Ok w /\ from_wire w o_com po0 = Ok m' /\ msg_equiv_t m' ex_u.
+Proof.
+  assert (OC : org_ok o_com) by (cbn; solve_name_ok).
+  destruct (to_wire ex_u o_com 0 0 false 0) as [w| |] eqn:E; try (vm_compute in E; discriminate).
+  destruct (update_forms_roundtrip o_com ex_u _ 0 0 w OC ex_u_wf Logic.I E) as (m' & F & EQ).
+  exists w, m'. auto.
 Qed.
